@@ -24,11 +24,14 @@ package main
 //@   ensures  window: forall i in [0, len(flowRecords) - 1): flowRecords[i] == old(flowRecords)[i + (old(len(flowRecords)) >= maxFlowRecords ? 1 : 0)]
 //@   ensures  lock: !mutex.held
 //@   callpre fmt.Fprintf value: len(a) == 2 ==> !iserrval(a[1])
-//@   modifies flowRecords, flowRecords[*], mutex.held, $lastString
+//@   modifies flowRecords, flowRecords[*], mutex.held, $lastString, $fmtN
 //@   replay window
 //@   loop 1 invariant keep: msgOK(msg) && 0 <= $i && flowRecords == old(flowRecords) && !mutex.held && len(flowRecords) <= maxFlowRecords
 //@   loop 2 invariant keep: msgOK(msg) && 0 <= $i && flowRecords == old(flowRecords) && !mutex.held && len(flowRecords) <= maxFlowRecords
 //@   loop 3 invariant keep: msgOK(msg) && 0 <= $i && flowRecords == old(flowRecords) && !mutex.held && len(flowRecords) <= maxFlowRecords
+//@   // every field of a record is rendered: exactly one formatted line per element (template fields: loop 2, data fields: loop 4)
+//@   loop 2 step line: $fmtN == prev($fmtN) + 1
+//@   loop 4 step line: $fmtN == prev($fmtN) + 1
 //@   loop 4 invariant keep: msgOK(msg) && 0 <= $i && flowRecords == old(flowRecords) && !mutex.held && len(flowRecords) <= maxFlowRecords
 
 //@ func resetRecordHandler(w, r) ()
